@@ -818,7 +818,7 @@ func runC10(c *Ctx) {
 					return
 				}
 				fv, base := fieldOf(st.Addr)
-				if fv != c.A.CfgFlood || c.allOriginsLocalAlloc(base, fn) {
+				if fv != c.A.CfgFlood || c.underConstruction(base, fn, 0) {
 					return
 				}
 				nFl++
